@@ -229,7 +229,13 @@ MUT_POOL = ["let", "=", ";", "{", "}", "(", ")", "[", "]", ",", ".", "import", "
             "assert", "out", "NULL", "@", "%", "é", "\n", "\r\n", " ", "0", "x", "mod", "self", "env", "include", "fail", "not", "TRACE", "convert", "constraint"]
 
 
+LAST_MUTATION_SPOTS = []
+
+
 def mutate(rng, text, n=None):
+    """Token-level mutation.  The character offsets (in the result) where mutations happened are left in LAST_MUTATION_SPOTS, so that a
+    caller can aim later requests at them (faults are worth most where something is in flight)."""
+    del LAST_MUTATION_SPOTS[:]
     toks = TOKEN_RE.findall(text)
     if not toks:
         return rng.choice(MUT_POOL)
@@ -257,9 +263,13 @@ def mutate(rng, text, n=None):
         elif op == "leading_stray":
             # a stray token at the very beginning of the document
             toks.insert(0, rng.choice([".", ",", ")", "}", "]", "=", ";", "::", "=>", "|", "..", "@", '"']))
+            i = 0
         elif op == "split" and len(toks[i]) > 1:
             k = rng.between(1, len(toks[i]) - 1)
             toks[i:i + 1] = [toks[i][:k], rng.choice([" ", "\n", ""]), toks[i][k:]]
+        if op == "drop_prefix":
+            i = 0
+        LAST_MUTATION_SPOTS.append(len("".join(toks[:min(i, len(toks))])))
     return "".join(toks)[:MAX_TEXT]
 
 
@@ -296,9 +306,20 @@ def gen_text(rng, lib_paths=(), std=True, exports=None):
     return k, rng.choice(["", "\n", " ", "\r\n\r\n", "//"])
 
 
-def sample_position(rng, text):
-    """-> (class, line, character) in LSP coordinates (UTF-16 units)"""
+def offset_to_position(text, off):
+    """character offset -> (line, UTF-16 character) with LSP line breaks"""
+    off = max(0, min(off, len(text)))
+    before = lsp_client.split_lines(text[:off])
+    return len(before) - 1, lsp_client.utf16_len(before[-1])
+
+
+def sample_position(rng, text, hot=None):
+    """-> (class, line, character) in LSP coordinates (UTF-16 units).  hot: character offsets worth aiming at (recent mutation sites)."""
     lines = lsp_client.split_lines(text)
+    if hot and rng.chance(35):
+        off = rng.choice(hot) + rng.choice([-1, 0, 0, 1, 1, 2, 3])
+        line, ch = offset_to_position(text, off)
+        return "near_mutation", line, ch
     k = rng.weighted([("token_start", 6), ("inside_token", 4), ("line_end", 2), ("past_line_end", 1), ("one_past_last_line", 1),
                       ("far_outside", 1), ("u32_max", 1), ("origin", 1), ("near_non_ascii", 2), ("first_tokens", 1)])
     if k == "near_non_ascii":
